@@ -24,18 +24,19 @@ import (
 // Shared scenario machinery for C09 (completeness after fetch/push) and C10 (refs only move forward).
 
 type netParams struct {
-	Op       string `json:"op"` // fetch | push | pull | merge | fetch-pkg
-	N        int    `json:"n"`
-	BaseRows int    `json:"base_rows"`
-	Branches int    `json:"branches"`
-	Depth    int    `json:"depth"`
-	Force    string `json:"force"` // "" | global | refspec
-	MaxPack  uint64 `json:"max_pack"`
-	HavesRT  int    `json:"haves_rt"`
-	Tags     bool   `json:"tags"`
-	FF       string `json:"ff"`            // merge mode: "" | no-ff | ff-only
-	Slow     bool   `json:"slow"`          // server trickles packfiles one byte per flush
-	Rel      string `json:"rel,omitempty"` // relation forced on the first branch
+	Op       string  `json:"op"` // fetch | push | pull | merge | fetch-pkg
+	N        int     `json:"n"`
+	BaseRows int     `json:"base_rows"`
+	Branches int     `json:"branches"`
+	Depth    int     `json:"depth"`
+	Force    string  `json:"force"` // "" | global | refspec
+	MaxPack  uint64  `json:"max_pack"`
+	HavesRT  int     `json:"haves_rt"`
+	Tags     bool    `json:"tags"`
+	FF       string  `json:"ff"`              // merge mode: "" | no-ff | ff-only
+	Slow     bool    `json:"slow"`            // server trickles packfiles one byte per flush
+	Rel      string  `json:"rel,omitempty"`   // relation forced on the first branch
+	Shape    [][]int `json:"shape,omitempty"` // explicit history shape; the single branch is "new" at the last commit
 }
 
 type branchPlan struct {
@@ -141,11 +142,16 @@ var netRelations = []string{"equal", "remote-ahead", "remote-ahead", "remote-beh
 // the receiver's refs are local remote-tracking refs; for push the sender is the local repository.
 func buildNet(c *fw.Case, env *fw.Env, p *netParams, rng *rand.Rand) (*netWorld, error) {
 	w := &netWorld{all: mon.NewMemStore()}
-	h, err := buildHistory(w.all, rng, histOpts{N: p.N, BaseRows: p.BaseRows, Roots: 2})
+	h, err := buildHistory(w.all, rng, histOpts{N: p.N, BaseRows: p.BaseRows, Roots: 2, Parents: p.Shape})
 	if err != nil {
 		return nil, err
 	}
 	w.h = h
+	if p.Shape != nil {
+		p.N = len(p.Shape)
+		p.Branches = 0
+		w.plans = append(w.plans, branchPlan{Name: "b0", Relation: "new", Remote: p.N - 1, Local: -1})
+	}
 	for b := 0; b < p.Branches; b++ {
 		pl := branchPlan{Name: fmt.Sprintf("b%d", b), Relation: netRelations[rng.Intn(len(netRelations))], Remote: rng.Intn(p.N), Local: -1}
 		if b == 0 && p.Rel != "" {
@@ -234,6 +240,19 @@ func buildNet(c *fw.Case, env *fw.Env, p *netParams, rng *rand.Rand) (*netWorld,
 				// the local branch of the same name sits where the tracking ref is
 				ref.SaveRef(recvRS, "heads/"+pl.Name, h.sums[pl.Local], "setup", "s@x", "setup", "local branch", nil)
 			}
+		}
+	}
+	if p.Op == "merge" {
+		// two local branches: b0 where the plan says the receiver is, `other` where the sender is
+		pl := w.plans[0]
+		if err := h.copyCommitClosure(w.all, lh.DB, pl.Remote); err != nil {
+			return nil, err
+		}
+		ref.SaveRef(lh.RS, "heads/other", h.sums[pl.Remote], "setup", "s@x", "setup", "other", nil)
+		if pl.Local >= 0 {
+			ref.SaveRef(lh.RS, "heads/b0", h.sums[pl.Local], "setup", "s@x", "setup", "b0", nil)
+		} else {
+			ref.SaveRef(lh.RS, "heads/b0", h.sums[pl.Remote], "setup", "s@x", "setup", "b0", nil)
 		}
 	}
 	w.srv = refserver.New(w.remoteDB, w.remoteRS, p.MaxPack)
@@ -373,9 +392,24 @@ func netArgs(w *netWorld, p *netParams) []string {
 		if p.Force == "refspec" {
 			plus = "+"
 		}
-		args = append(args, plus+"refs/heads/*:refs/remotes/origin/*")
-		if p.Tags {
-			args = append(args, plus+"refs/tags/*:refs/tags/*")
+		if p.Force == "mixed" {
+			// one refspec per branch; only some carry '+' (see planForced)
+			for i, pl := range w.plans {
+				pp := ""
+				if planForced(p, i) {
+					pp = "+"
+				}
+				if strings.HasPrefix(pl.Name, "tag:") {
+					args = append(args, fmt.Sprintf("%srefs/tags/%s:refs/tags/%s", pp, pl.Name[4:], pl.Name[4:]))
+				} else {
+					args = append(args, fmt.Sprintf("%srefs/heads/%s:refs/remotes/origin/%s", pp, pl.Name, pl.Name))
+				}
+			}
+		} else {
+			args = append(args, plus+"refs/heads/*:refs/remotes/origin/*")
+			if p.Tags {
+				args = append(args, plus+"refs/tags/*:refs/tags/*")
+			}
 		}
 		if p.Force == "global" {
 			args = append(args, "--force")
@@ -386,9 +420,9 @@ func netArgs(w *netWorld, p *netParams) []string {
 		return append(args, "--no-progress")
 	case "push":
 		args := []string{"push", "origin"}
-		for _, pl := range w.plans {
+		for i, pl := range w.plans {
 			plus := ""
-			if p.Force == "refspec" {
+			if p.Force == "refspec" || (p.Force == "mixed" && planForced(p, i)) {
 				plus = "+"
 			}
 			if strings.HasPrefix(pl.Name, "tag:") {
@@ -401,6 +435,12 @@ func netArgs(w *netWorld, p *netParams) []string {
 			args = append(args, "--force")
 		}
 		return append(args, "--no-progress")
+	case "merge":
+		args := []string{"merge", "b0", "other", "--no-progress", "--no-gui", "-n", "4"}
+		if p.FF != "" {
+			args = append(args, "--"+p.FF)
+		}
+		return args
 	case "pull":
 		pl := w.plans[0]
 		args := []string{"pull", pl.Name, "origin", "refs/heads/" + pl.Name + ":refs/remotes/origin/" + pl.Name, "--no-progress", "--no-gui", "-n", "4"}
@@ -413,6 +453,17 @@ func netArgs(w *netWorld, p *netParams) []string {
 		return args
 	}
 	return nil
+}
+
+// planForced says whether the i-th plan's refspec carries '+' under Force == "mixed": even positions do.
+func planForced(p *netParams, i int) bool {
+	switch p.Force {
+	case "global", "refspec":
+		return true
+	case "mixed":
+		return i%2 == 0
+	}
+	return false
 }
 
 func setupRemoteConfig(w *netWorld) error {
